@@ -106,6 +106,23 @@ Theorem C01_readback : forall fparse norm as_kv, total fparse -> total norm ->
 Proof. exact readback. Qed.
 Print Assumptions C01_readback.
 
+(* a clean stop and start is the identity on what can be read (Shutdown syncs the last chunk of every journal) ... *)
+Theorem C01_restart_identity : forall as_kv cfg srv key, read_back as_kv cfg (restart srv) key = read_back as_kv cfg srv key.
+Proof. exact read_back_restart. Qed.
+Print Assumptions C01_restart_identity.
+
+(* ... so a history with clean restarts between its segments and before the read (run_segs) acknowledges and reads back
+   exactly what the history without them does: the refinement statement of C01_readback over segments *)
+Theorem C01_restart : forall fparse norm as_kv, total fparse -> total norm ->
+  forall cfg segs fuel key, (0 < max_chunk cfg)%Z -> (0 < w_limit cfg <= max_rec cfg)%Z ->
+  Forall (Forall req_ok) segs -> Forall (Forall (fun r => (req_len r < fuel)%nat)) segs ->
+  Forall le_ok (concat (map (spec_req fparse norm cfg key) (concat segs))) ->
+  exists srv res, run_segs fparse norm fuel cfg [] segs = Ok (srv, res) /\
+    map r_ack res = map (spec_ack fparse norm cfg) (concat segs) /\
+    read_back as_kv cfg (restart srv) key = Ok (spec_content fparse norm as_kv cfg key (concat segs)).
+Proof. exact readback_restart. Qed.
+Print Assumptions C01_restart.
+
 (* an acknowledged batch is stored whole *)
 Theorem C01_acknowledged_whole : forall fparse norm cfg key r k evs,
   spec_batch fparse norm r = Some (k, evs) -> spec_ack fparse norm cfg r = true ->
